@@ -276,6 +276,24 @@ int main() {
   final_drop(&b); caller_objects_untouched();
   if (kind_at_op != F_DROP) no_leak();
 
+#elif defined(S_EQ)
+  /* C06: an element comparison panics part-way: both buffers are untouched (same capacity on both sides) */
+  cb_t b; init_state(&b, 0, &CEX_start, &CEX_size);
+  cb_t o; init_state(&o, 48, &CEX_start2, &CEX_size2);
+  cb_t b0 = b, o0 = o;
+  choose_fault(F_EQ, F_EQ);
+  _Bool r = mir_PartialEq_for_CircularBuffer_eq(&b, &o);
+  panicked = UNWINDING; UNWINDING = 0; kind_at_op = FAULT_KIND; fired = fault_fired();
+  no_bad_drop(); check_valid(&b);
+  WIT(panicked, "[user] a comparison panic is reachable");
+  WIT(panicked && CEX_at >= 2, "[user] a comparison panic after two comparisons is reachable");
+  WIT(!panicked && r && b0.f0 > 1 && b0.f1 + b0.f0 > NN && o0.f1 + o0.f0 > NN && b0.f1 != o0.f1, "[any] equal wrapped buffers with different splits are reachable");
+  PROP(DROP_N == 0, "a comparison destroys nothing");
+  PROP(b.f0 == b0.f0 && b.f1 == b0.f1 && o.f0 == o0.f0 && o.f1 == o0.f1, "a comparison leaves both buffers' length and front position alone");
+  for (size_t i = 0; i < NN; i++) { if (i < b0.f0) PROP(SLOT(&b, i).id == i, "a comparison leaves the left elements alone"); if (i < o0.f0) PROP(SLOT(&o, i).id == 48 + i, "a comparison leaves the right elements alone"); }
+  if (!panicked) PROP(r == (b0.f0 == o0.f0), "no fault: equal exactly when the sequences are equal (here: equal lengths)");
+  final_drop(&b);
+
 #elif defined(S_FROM_ARRAY)
   /* C05: destructor of a discarded element panics */
   choose_fault(F_DROP, F_DROP);
